@@ -117,7 +117,9 @@ func (f *Frame) invariants(li *loopInfo, st *State, env *loopEnv, positive bool,
 // iteration instead of being cut - exact, no invariant needed (typical: a variadic option list that
 // the caller passed zero or one element to).
 func (f *Frame) tryUnroll(li *loopInfo, st *State, r *Term) (*State, bool) {
-	if lc := f.loopContract(li); lc != nil && len(lc.Invariants) > 0 {
+	if lc := f.loopContract(li); lc != nil && len(lc.Invariants) > 0 && f.depth == 0 {
+		// the function under verification proves its own invariants; an expanded callee whose range has a
+		// literal length at this call site is simply unrolled
 		return nil, false
 	}
 	h := li.header
